@@ -224,4 +224,86 @@ theorem load_single_string (k : String) (v : Bytes) (hk : typeOf (keyBytes k) = 
   simp only [assign, hk, Settings.set, Settings.get]
   simp
 
+/-! ### the last assignment wins -/
+
+/-- the loader as a fold over the chunks `fgets` delivered -/
+def loadChunks (s : Settings) (cs : List Bytes) : Settings :=
+  cs.foldl (fun s chunk => match parseLine chunk with
+    | some (n, v) => assign s n v
+    | none => s) s
+
+theorem load_eq (file : Bytes) : load file = loadChunks [] (fileChunks file) := rfl
+
+theorem set_get_same (s : Settings) (k : String) (v : CVal) : (s.set k v).get k = some v := by
+  simp [Settings.set, Settings.get]
+
+theorem set_get_other (s : Settings) (k k' : String) (v : CVal) (h : k' ≠ k) : (s.set k' v).get k = s.get k := by
+  have h1 : (k' == k) = false := by simpa using h
+  simp only [Settings.set, Settings.get, List.find?, h1]
+  congr 1
+  induction s with
+  | nil => rfl
+  | cons a t ih =>
+    by_cases ha : a.1 = k'
+    · have : (a.1 != k') = false := by simp [ha]
+      have h2 : (a.1 == k) = false := by rw [ha]; exact h1
+      simp only [List.filter, this, List.find?, h2]; exact ih
+    · have : (a.1 != k') = true := by simp [ha]
+      simp only [List.filter, this, List.find?]
+      cases hk : (a.1 == k) <;> simp [ih]
+
+/-- does this chunk assign a value to setting `k`? -/
+def touches (k : String) (chunk : Bytes) : Bool :=
+  match parseLine chunk with
+  | some (n, _) => (match typeOf n with | some (k', _) => k' == k | none => false)
+  | none => false
+
+theorem assign_untouched (s : Settings) (n v : Bytes) (k : String)
+    (h : (match typeOf n with | some (k', _) => k' == k | none => false) = false) : (assign s n v).get k = s.get k := by
+  unfold assign
+  cases ht : typeOf n with
+  | none => rfl
+  | some kt =>
+    obtain ⟨k', t⟩ := kt
+    rw [ht] at h
+    have hne : k' ≠ k := by simpa using h
+    cases t with
+    | str => exact set_get_other _ _ _ _ hne
+    | int => exact set_get_other _ _ _ _ hne
+    | oct => exact set_get_other _ _ _ _ hne
+    | bool =>
+      simp only
+      cases string2bool v with
+      | none => rfl
+      | some b => exact set_get_other _ _ _ _ hne
+
+theorem loadChunks_untouched (k : String) (cs : List Bytes) (s : Settings) (h : ∀ c ∈ cs, touches k c = false) :
+    (loadChunks s cs).get k = s.get k := by
+  induction cs generalizing s with
+  | nil => rfl
+  | cons c t ih =>
+    have hc := h c (by simp)
+    have ht := fun c' hc' => h c' (List.mem_cons_of_mem _ hc')
+    show (loadChunks _ t).get k = _
+    rw [ih _ ht]
+    unfold touches at hc
+    cases hp : parseLine c with
+    | none => simp only [hp]
+    | some nv =>
+      obtain ⟨n, v⟩ := nv
+      rw [hp] at hc
+      simp only [hp]
+      exact assign_untouched s n v k hc
+
+/-- THE LAST ASSIGNMENT WINS: whatever precedes it, a string setting has the value of the last chunk that assigns it -/
+theorem loadChunks_last_wins (k : String) (pre post : List Bytes) (c n v : Bytes) (s : Settings)
+    (hp : parseLine c = some (n, v)) (hk : typeOf n = some (k, .str)) (hpost : ∀ c' ∈ post, touches k c' = false) :
+    (loadChunks s (pre ++ c :: post)).get k = some (.str v) := by
+  unfold loadChunks
+  rw [List.foldl_append, List.foldl_cons]
+  show (loadChunks _ post).get k = _
+  rw [loadChunks_untouched k post _ hpost, hp]
+  simp only [assign, hk]
+  exact set_get_same _ _ _
+
 end Shm.Pure.Config
